@@ -15,6 +15,7 @@ W(n) == n \div 64                       \* word index of n
 Need(n) == W(n) + 1
 Max(a, b) == IF a > b THEN a ELSE b
 InWords(S, w) == {n \in S : W(n) < w}
+Sorted(S) == SX!SetToSortSeq(S, LAMBDA x, y : x < y)     \* (Java override: linear-logarithmic)
 
 Init == xm = {} /\ xw = 0 /\ ym = {} /\ yw = 0 /\ last = R("Init", <<>>, <<>>)
 
@@ -32,7 +33,14 @@ Merge == /\ xm' = xm \cup ym /\ xw' = Max(xw, yw) /\ last' = R("Merge", <<>>, <<
 \* Y := X.Clone()  (afterwards X and Y evolve independently)
 CloneToY == /\ ym' = xm /\ yw' = xw /\ last' = R("CloneToY", <<>>, <<>>) /\ UNCHANGED <<xm, xw>>
 
-Next == \/ \E n \in U : Add(n) \/ Remove(n) \/ Contains(n) \/ Grow(n) \/ AddY(n) \/ RemoveY(n)
+\* an enumeration during which values are removed as soon as they have been yielded (k = 0 / 1: the even / odd ones,
+\* 2: all - the usual drain loop). The members that are never touched must all be yielded, in ascending order, and
+\* removing what was already yielded disturbs nothing: the enumeration is that of the set at its start.
+Sel(k, v) == k = 2 \/ v % 2 = k
+IterRemove(k) == /\ last' = R("IterRemove", <<k>>, <<Sorted(xm)>>) /\ xm' = {v \in xm : ~Sel(k, v)}
+                 /\ UNCHANGED <<xw, ym, yw>>
+Next == \/ \E k \in 0..2 : IterRemove(k)
+        \/ \E n \in U : Add(n) \/ Remove(n) \/ Contains(n) \/ Grow(n) \/ AddY(n) \/ RemoveY(n)
         \/ Diff \/ Intersect \/ Merge \/ CloneToY
 vars == <<xm, xw, ym, yw, last>>
 Spec == Init /\ [][Next]_vars
@@ -40,7 +48,6 @@ Constr == xw <= MaxW /\ yw <= MaxW
 TypeOK == /\ \A n \in xm : W(n) < xw
           /\ \A n \in ym : W(n) < yw
 
-Sorted(S) == SX!SetToSortSeq(S, LAMBDA x, y : x < y)     \* (Java override: linear-logarithmic)
 First(s, k) == SubSeq(s, 1, IF Len(s) < k THEN Len(s) ELSE k)
 \* the public observation: cardinality and the three enumerations of X, and Y (to see that it is left alone)
 O == [len |-> Cardinality(xm), iter |-> Sorted(xm), range2 |-> First(Sorted(xm), 2), all |-> Sorted(xm),
